@@ -212,6 +212,13 @@ func (s *session) sendLogonInReplyTo(setResetSeqNum bool, inReplyTo *Message) er
 		}
 	}
 
+	if s.IsLoggedOn() {
+		// A Logon sent by an established session (ResetSeqTime, or the answer to a Logon received inside
+		// the session): what is queued was accepted, numbered and persisted while logged on. It goes out
+		// under its own numbers ahead of the Logon (which may reset the store); it is not thrown away.
+		return s.flushAndSendInReplyTo(logon, inReplyTo)
+	}
+
 	if err := s.dropAndSendInReplyTo(logon, inReplyTo); err != nil {
 		return err
 	}
@@ -367,6 +374,24 @@ func (s *session) dropAndSendInReplyTo(msg *Message, inReplyTo *Message) error {
 	}
 
 	s.dropQueued()
+	s.toSend = append(s.toSend, msgBytes)
+	s.sendQueued(true)
+
+	return nil
+}
+
+// flushAndSendInReplyTo sends what is queued, then msg.
+func (s *session) flushAndSendInReplyTo(msg *Message, inReplyTo *Message) error {
+	s.sendMutex.Lock()
+	defer s.sendMutex.Unlock()
+
+	s.sendQueued(true)
+
+	msgBytes, err := s.prepMessageForSend(msg, inReplyTo)
+	if err != nil {
+		return err
+	}
+
 	s.toSend = append(s.toSend, msgBytes)
 	s.sendQueued(true)
 
